@@ -148,7 +148,7 @@ CLAIMS = {
              "(with the repaired guard; without it TLC finds the overflow) and the curve-search status machine. Step sequences on a real "
              "bundle_t (cuts read through the guarded accessors) are re-derived by TLC; RQB/FPBA1/FPBA2/ellipsoid on sharp objectives: "
              "`converged` implies the stated gap, the ellipsoid converges within 20000 evaluations for n <= 6.",
-        note="The n-dimensional real-valued certificate is observed per run (driver oracle with known minimiser), exact only in 1-D."),
+        note="The n-dimensional real-valued certificate is observed per run (driver oracle with known minimise One open finding: the ellipsoid method with epsilon <= 5e-8 and a warm start (known_findings.json)."), exact only in 1-D."),
     "C04": dict(
         category="exploration", design_ref="DESIGN.md §3 C04",
         technique="TLC model checking of InteriorPoint.tla + exact vertex enumeration of small integer LPs in TLC (LinProg.tla) + TLC validation of KKT-constructed / planted / restated programs (ProgramTrace.tla)",
@@ -194,8 +194,9 @@ CLAIMS = {
         text="Scoped to the exact-lattice reading: on columns whose statistics are exactly representable TLC re-computes count/min/max/mean/"
              "stdev and every scaled entry for the four modes, identity scaling of degenerate columns, missing -> 0, categorical columns "
              "untouched, inversion and the affine up-scaling identity of linear models.",
-        note="Partial: 'up to floating-point rounding' clauses on non-lattice data, magnitudes 1e-6..1e6 and near-constant columns are not "
-             "decided (rounding is outside what TLC can decide)."),
+        note="Partial: on non-lattice data (1..300 rows x 1..20 columns, magnitudes 1e-6..1e6, near-constant columns, arbitrary missing "
+             "patterns, multi-output models) the clauses are decided by the driver's long-double oracles with rounding tolerances and only "
+             "asserted by the trace specification (rounding is outside what TLC can decide)."),
     "C06": dict(
         category="other", design_ref="DESIGN.md §3 C06",
         technique="TLC re-computation of recorded values/gradients at lattice points (exact five-point stencil identity, first-order convexity inequality, loss values/subgradients/error rules on integer data: PolyCalculus.tla) + TLC-asserted central-difference / tolerance oracles for the transcendental kernels",
